@@ -6,7 +6,7 @@
 import glob, json, os, subprocess, sys
 import xml.etree.ElementTree as ET
 sid, n = sys.argv[1], sys.argv[2]
-src = '/tmp/seedout/%s/%s' % (sid, n)
+src = '%s/%s/%s' % (os.environ.get('SEEDOUT', '/tmp/seedout'), sid, n)
 wt = '/tmp/confwt/%s_%s' % (sid, n)
 os.makedirs('/tmp/confwt', exist_ok=True)
 res = {'id': sid, 'n': n}
